@@ -477,6 +477,7 @@ struct RegHarness : Harness {
             case 1: a.flags = AF_W; break;                                   // write-only
             case 2: a.flags = AF_R | AF_W | AF_SKIP; break;                  // skip defaults
             case 3: a.flags = AF_R | AF_W; a.has_write = false; break;       // no write callback
+            case 4: a.flags = AF_R | AF_W | AF_SKIP; a.has_write = false; break;   // both at once: a preloaded constant table
             default: a.flags = AF_R | AF_W;
             }
             if (prop == "C05" && r.chance(2, 3)) { a.flags = AF_R | AF_W; a.has_write = true; }
